@@ -175,6 +175,9 @@ M = [
     ('C08', 'ECDSAPub.parse+', 'pgpy.packet.fields', "        _oid.append(oidlen)\n        _oid += bytearray(packet[:oidlen])", "        _oid.append(oidlen)\n        _oid += bytearray(packet[:oidlen - 1])"),
     ('C08', 'ECDHPub.parse+', 'pgpy.packet.fields', "        _b += self.p.to_mpibytes()\n        _b += self.kdf.__bytearray__()", "        _b += self.kdf.__bytearray__()\n        _b += self.p.to_mpibytes()"),
     ('C08', 'ECKDF.parse+', 'pgpy.packet.fields', "        self.halg = packet[0]\n        del packet[0]\n\n        self.encalg = packet[0]\n        del packet[0]\n\n    def derive_key", "        self.encalg = packet[0]\n        del packet[0]\n\n        self.halg = packet[0]\n        del packet[0]\n\n    def derive_key"),
+    ('C08', 'PubKeyV4.parse', 'pgpy.packet.packets', "        pend = self.header.length - 6\n        self.keymaterial.parse(packet[:pend])", "        pend = self.header.length - 5\n        self.keymaterial.parse(packet[:pend])"),
+    ('C08', 'PubKeyV4.parse', 'pgpy.packet.packets', "        self.keymaterial.parse(packet[:pend])\n        del packet[:pend]\n\n\nclass PrivKeyV4", "        self.keymaterial.parse(packet)\n\n\nclass PrivKeyV4"),
+    ('C08', 'PubKeyV4.parse', 'pgpy.packet.packets', "            (True, PubKeyAlgorithm.DSA): DSAPub,", "            (True, PubKeyAlgorithm.DSA): RSAPub,"),
 ]
 
 
